@@ -8,7 +8,9 @@ EXPLANATION = (
     "for the four mode gradual performance calculators and the enum wrapper; len() is the inner calculator's len() (R1); "
     "every arm of the enum wrappers' next/nth/size_hint/len (GradualDifficulty) and nth/len (GradualPerformance) calls "
     "the same-named method of its own payload with the parameters passed through and re-wraps in its own variant (R2); "
-    "size_hint of the four mode iterators is (len, Some(len)) with len = ExactSizeIterator::len(self) (R3). "
+    "size_hint of the four mode iterators is (len, Some(len)) with len = ExactSizeIterator::len(self) (R3); len() consults every "
+    "collection whose emptiness makes next() return None at once (R4); a custom nth(n) that clamps n must have a None return guarded "
+    "by a comparison of n with len() (R5: std's contract nth(n >= len) == None, which step_by/skip rely on). "
     "nth(n) == n+1 x next, len == remaining, behaviour after exhaustion are arithmetic over runtime state: NOT decided.")
 
 GD = 'any::difficulty::gradual::GradualDifficulty'
@@ -152,4 +154,85 @@ def run(ctx):
     r1(ctx, F)
     r2(ctx, F)
     r3(ctx, F)
+    r4_r5(ctx, F)
     ctx.not_decided('nth(n) == n+1 next calls; len()/size_hint() == number of values still to come; None after exhaustion without panic')
+
+
+# ---- R4 / R5: the custom len() and nth() of the four mode iterators against next()
+def r4_r5(ctx, F):
+    import combin
+    n4 = n5 = 0
+    for mode in MODES:
+        adt = gd_adt(mode)
+        nxt = F.method(adt, 'next', trait='std::iter::Iterator')
+        ln = F.method(adt, 'len', trait='std::iter::ExactSizeIterator')
+        nth = F.method(adt, 'nth', trait='std::iter::Iterator')
+        if not (nxt and ln and nth):
+            ctx.violation('C15-R4', 'anchor-missing:%s' % mode, 'Iterator::{next, nth} / ExactSizeIterator::len of %s not all found' % adt)
+            continue
+        for f in (nxt, ln, nth):
+            ctx.saw(f)
+        # R4: collections whose emptiness makes next() return None at once must be consulted by len()
+        P = prov.prov_of(nxt)
+        empties = set()
+        for bi, si, s in nxt.assigns():
+            if s['p']['l'] == 0 and 'proj' not in s['p'] and s['rv']['k'] == 'agg' and s['rv'].get('variant') == 'None':
+                for c, lab in arms.bool_facts(nxt, bi):
+                    c = prov.strip(c, names={'likely', 'unlikely'})
+                    if lab == 'true' and c[0] == 'call' and c[1].get('name') == 'is_empty':
+                        pp = as_param_path(c[2][0])
+                        if pp is not None and pp[0] == 1 and pp[1]:
+                            empties.add(pp[1][0])
+        lrv = prov.prov_of(ln).return_value()
+        reads = set()
+        for nn in prov.walk(lrv, limit=300):
+            pp = as_param_path(nn)
+            if pp is not None and pp[0] == 1 and pp[1] and nn[0] == 'field':
+                reads.add(pp[1][0])
+        # also fields only tested in conditions of len()
+        for bi, b in enumerate(ln.blocks):
+            if b['t']['k'] == 'switch' and not b['cleanup']:
+                info = arms.switch_info(ln, bi)
+                for nn in prov.walk(info['cond'], limit=100):
+                    pp = as_param_path(nn)
+                    if pp is not None and pp[0] == 1 and pp[1] and nn[0] == 'field':
+                        reads.add(pp[1][0])
+        n4 += 1
+        missing = sorted(empties - reads)
+        ctx.require(not missing, 'C15-R4', '%s:len-empty' % mode,
+                    '%sGradualDifficulty::len() consults every collection whose emptiness ends next() (%s)' % (CAP[mode], sorted(empties) or 'none'), ln.where(),
+                    bad='%sGradualDifficulty::next() returns None at once when self.%s is empty, but len() (%s) never looks at it: an empty calculator announces '
+                        'len() >= 1 and then produces nothing' % (CAP[mode], '/'.join(missing), prov.show(lrv, maxdepth=5)))
+        # R5: nth(n) must not silently clamp n: a comparison of n with len() has to guard a None return
+        Pn = prov.prov_of(nth)
+        clamps = []
+        for bi, t in nth.calls():
+            if t['func'].get('name') == 'min':
+                args = Pn.call_args(bi)
+                if any(as_param_path(a, through_calls=False) == (2, ()) for a in args):
+                    clamps.append(t.get('ln'))
+        guarded = False
+        for bi, b in enumerate(nth.blocks):
+            if b['cleanup'] or b['t']['k'] != 'switch':
+                continue
+            info = arms.switch_info(nth, bi)
+            c = prov.strip(info['cond'], names={'likely', 'unlikely'})
+            if c[0] == 'binop' and c[1] in ('Ge', 'Gt', 'Lt', 'Le'):
+                sides = [c[2], c[3]]
+                has_n = any(as_param_path(x, through_calls=False) == (2, ()) for x in sides)
+                has_len = any(x[0] == 'call' and x[1].get('name') == 'len' and as_param_path(x[2][0]) == (1, ()) for x in (prov.strip(y, names=set()) for y in sides))
+                if has_n and has_len:
+                    # one edge must lead to a None result without going through the clamp
+                    for lab, tgt in info['edges']:
+                        reg = arms.region(nth, tgt)
+                        for rb in reg:
+                            for s in nth.blocks[rb]['s']:
+                                if s['k'] == 'assign' and s['p']['l'] == 0 and 'proj' not in s['p'] and s['rv']['k'] == 'agg' and s['rv'].get('variant') == 'None':
+                                    guarded = True
+        n5 += 1
+        ctx.require(guarded or not clamps, 'C15-R5', '%s:nth-beyond' % mode,
+                    '%sGradualDifficulty::nth(n) returns None when n >= len() (guarded None return%s)' % (CAP[mode], ', then clamps' if clamps else ''), nth.where(),
+                    bad='%sGradualDifficulty::nth(n) clamps n with min(n, ..) (line %s) and no comparison of n with len() guards a None return: for n >= len() it yields '
+                        'the last value instead of None, so step_by / skip / nth see a different sequence than repeated next()' % (CAP[mode], clamps))
+    ctx.floor('C15-R4', n4, 4, 'ExactSizeIterator::len impls')
+    ctx.floor('C15-R5', n5, 4, 'custom Iterator::nth impls')
